@@ -58,12 +58,18 @@ func (f *Filter) Append(buf []byte, _, _ bool) []byte {
 }
 
 func (f *Filter) remove(value any) (out any, changed bool) {
+	return f.removeWithRoot(value, nil)
+}
+
+// removeWithRoot removes the matching elements of value with $ in the script
+// evaluated against root.
+func (f *Filter) removeWithRoot(value, root any) (out any, changed bool) {
 	out = value
 	switch tv := value.(type) {
 	case []any:
 		ns := make([]any, 0, len(tv))
 		for _, v := range tv {
-			if f.Match(v) {
+			if f.matchWithRoot(v, root) {
 				changed = true
 			} else {
 				ns = append(ns, v)
@@ -74,7 +80,7 @@ func (f *Filter) remove(value any) (out any, changed bool) {
 		}
 	case map[string]any:
 		for k, v := range tv {
-			if f.Match(v) {
+			if f.matchWithRoot(v, root) {
 				delete(tv, k)
 				changed = true
 			}
@@ -82,7 +88,7 @@ func (f *Filter) remove(value any) (out any, changed bool) {
 	case gen.Array:
 		ns := make(gen.Array, 0, len(tv))
 		for _, v := range tv {
-			if f.Match(v) {
+			if f.matchWithRoot(v, root) {
 				changed = true
 			} else {
 				ns = append(ns, v)
@@ -93,7 +99,7 @@ func (f *Filter) remove(value any) (out any, changed bool) {
 		}
 	case gen.Object:
 		for k, v := range tv {
-			if f.Match(v) {
+			if f.matchWithRoot(v, root) {
 				delete(tv, k)
 				changed = true
 			}
@@ -102,7 +108,7 @@ func (f *Filter) remove(value any) (out any, changed bool) {
 		size := tv.Size()
 		for i := (size - 1); i >= 0; i-- {
 			v := tv.ValueAtIndex(i)
-			if f.Match(v) {
+			if f.matchWithRoot(v, root) {
 				tv.RemoveValueAtIndex(i)
 				changed = true
 			}
@@ -111,7 +117,7 @@ func (f *Filter) remove(value any) (out any, changed bool) {
 		keys := tv.Keys()
 		for _, key := range keys {
 			v, _ := tv.ValueForKey(key)
-			if f.Match(v) {
+			if f.matchWithRoot(v, root) {
 				tv.RemoveValueForKey(key)
 				changed = true
 			}
@@ -127,7 +133,7 @@ func (f *Filter) remove(value any) (out any, changed bool) {
 			cnt := rv.Len()
 			nc := 0
 			for i := 0; i < cnt; i++ {
-				if f.Match(rv.Index(i).Interface()) {
+				if f.matchWithRoot(rv.Index(i).Interface(), root) {
 					changed = true
 				} else {
 					nc++
@@ -139,7 +145,7 @@ func (f *Filter) remove(value any) (out any, changed bool) {
 				ns := reflect.MakeSlice(rv.Type(), nc, nc)
 				for i := 0; i < cnt; i++ {
 					iv := rv.Index(i)
-					if f.Match(iv.Interface()) {
+					if f.matchWithRoot(iv.Interface(), root) {
 						changed = true
 					} else {
 						ns.Index(ni).Set(iv)
@@ -152,7 +158,7 @@ func (f *Filter) remove(value any) (out any, changed bool) {
 			keys := rv.MapKeys()
 			for _, k := range keys {
 				mv := rv.MapIndex(k)
-				if f.Match(mv.Interface()) {
+				if f.matchWithRoot(mv.Interface(), root) {
 					rv.SetMapIndex(k, reflect.Value{})
 					changed = true
 				}
@@ -163,12 +169,18 @@ func (f *Filter) remove(value any) (out any, changed bool) {
 }
 
 func (f *Filter) removeOne(value any) (out any, changed bool) {
+	return f.removeOneWithRoot(value, nil)
+}
+
+// removeOneWithRoot removes the first matching element of value with $ in the
+// script evaluated against root.
+func (f *Filter) removeOneWithRoot(value, root any) (out any, changed bool) {
 	out = value
 	switch tv := value.(type) {
 	case []any:
 		ns := make([]any, 0, len(tv))
 		for _, v := range tv {
-			if !changed && f.Match(v) {
+			if !changed && f.matchWithRoot(v, root) {
 				changed = true
 			} else {
 				ns = append(ns, v)
@@ -185,7 +197,7 @@ func (f *Filter) removeOne(value any) (out any, changed bool) {
 			}
 			sort.Strings(keys)
 			for _, k := range keys {
-				if f.Match(tv[k]) {
+				if f.matchWithRoot(tv[k], root) {
 					delete(tv, k)
 					changed = true
 					break
@@ -195,7 +207,7 @@ func (f *Filter) removeOne(value any) (out any, changed bool) {
 	case gen.Array:
 		ns := make(gen.Array, 0, len(tv))
 		for _, v := range tv {
-			if !changed && f.Match(v) {
+			if !changed && f.matchWithRoot(v, root) {
 				changed = true
 			} else {
 				ns = append(ns, v)
@@ -212,7 +224,7 @@ func (f *Filter) removeOne(value any) (out any, changed bool) {
 			}
 			sort.Strings(keys)
 			for _, k := range keys {
-				if f.Match(tv[k]) {
+				if f.matchWithRoot(tv[k], root) {
 					delete(tv, k)
 					changed = true
 					break
@@ -223,7 +235,7 @@ func (f *Filter) removeOne(value any) (out any, changed bool) {
 		size := tv.Size()
 		for i := 0; i < size; i++ {
 			v := tv.ValueAtIndex(i)
-			if f.Match(v) {
+			if f.matchWithRoot(v, root) {
 				tv.RemoveValueAtIndex(i)
 				changed = true
 				break
@@ -234,7 +246,7 @@ func (f *Filter) removeOne(value any) (out any, changed bool) {
 		sort.Strings(keys)
 		for _, key := range keys {
 			v, _ := tv.ValueForKey(key)
-			if f.Match(v) {
+			if f.matchWithRoot(v, root) {
 				tv.RemoveValueForKey(key)
 				changed = true
 				break
@@ -251,7 +263,7 @@ func (f *Filter) removeOne(value any) (out any, changed bool) {
 			cnt := rv.Len()
 			nc := 0
 			for i := 0; i < cnt; i++ {
-				if !changed && f.Match(rv.Index(i).Interface()) {
+				if !changed && f.matchWithRoot(rv.Index(i).Interface(), root) {
 					changed = true
 				} else {
 					nc++
@@ -263,7 +275,7 @@ func (f *Filter) removeOne(value any) (out any, changed bool) {
 				ns := reflect.MakeSlice(rv.Type(), nc, nc)
 				for i := 0; i < cnt; i++ {
 					iv := rv.Index(i)
-					if !changed && f.Match(iv.Interface()) {
+					if !changed && f.matchWithRoot(iv.Interface(), root) {
 						changed = true
 					} else {
 						ns.Index(ni).Set(iv)
@@ -279,7 +291,7 @@ func (f *Filter) removeOne(value any) (out any, changed bool) {
 			})
 			for _, k := range keys {
 				mv := rv.MapIndex(k)
-				if f.Match(mv.Interface()) {
+				if f.matchWithRoot(mv.Interface(), root) {
 					rv.SetMapIndex(k, reflect.Value{})
 					changed = true
 					break
